@@ -79,7 +79,9 @@ class C42(S4UCheck):
                 elif c < 4:
                     ops.append(['create', 't%d' % r.below(2)])
                 elif c < 6:
-                    ops.append(['join', r.choice(['a%d' % r.below(na), 't0', 't1'])])
+                    # (only actors that exist from the start: the harness looks the target up in a table that creations
+                    # fill, which would be memory shared between actors outside of the simulated synchronisations)
+                    ops.append(['join', 'a%d' % r.below(na)])
                 elif c < 7:
                     ops.append(['sleep', 0.25])
                 else:
